@@ -264,6 +264,28 @@ PROPS = {
             "of the general theorems per instance",
         ],
     },
+    "C20": {
+        "harness": [{"cmd": "c20", "n": {"quick": 600, "thorough": 20000}, "extra": ["-per", "75"]}],
+        "extra_targets": ["Corr/C20Cert.vo"],
+        "rule": "seven kinds, uniformly: dna.BuildWeightsGamma / BuildWeightsDirichlet for lengths 3..42 (10%: 3, 4, 100, "
+                "257, 1000) and 40-bit seeds; stats.Dirichlet with 3..8 (12%: 1..2) shapes from 18 values in [1/64, 100] "
+                "(mixed / all 1 / all below 1 / all above 1; 12% with one shape 0, -1/2 or -5) and factor 1, 10, 1/2, k, "
+                "1000; stats.Dirichlet1 with 1..40 values; one stats.Gamma draw; models.DiscreteGamma for shapes "
+                "k/64 (k<=6400) and 2..32 categories; models.IncompleteGamma on ascending 30-point grids from 0 to "
+                "about 3*shape+4 for integer/half-integer shapes up to 8 and other shapes. Every sampler call is replayed "
+                "by the harness on the uniform draws of the same seed (bit equality = model agreement) and every output "
+                "is judged (length, finiteness, strict positivity, sum, order, range); 60 (thorough 1500) certificates: "
+                "accepted and rejected rounds of the three samplers against the real-number model, and "
+                "IncompleteGamma against its series definition with the exact Gamma(p); non-trivial = everything but "
+                "error cases; distinct = distinct (call, parameters, seed)",
+        "nontrivial": lambda m: not str(m.get("op", "")).endswith(":error"),
+        "assumptions": [
+            "binary64 rounding, math.Log/Exp/Pow/Sqrt and gonum's gamma quantile are outside the model; sums are "
+            "judged with relative tolerance 1e-9, the category mean with 1e-6, monotonicity of the incomplete gamma "
+            "ratio with 1e-7 (the routine's own accuracy is 1e-8)",
+            "math/rand's global source after rand.Seed(s) equals rand.New(rand.NewSource(s)) (checked by the replay)",
+        ],
+    },
     "C08": {
         "harness": [{"cmd": "c08", "n": {"quick": 600, "thorough": 20000}, "extra": ["-per", "100"]}],
         "rule": "the alignments and option sets of C07, each followed by one relation between two real calls of "
